@@ -27,6 +27,7 @@ func begin() {
 	world.ResetGlobals()
 	erpc.VerifResetPeers()
 	utils.VerifResetBufferPool()
+	restoreSentinels()
 }
 
 type callRec struct {
